@@ -45,13 +45,14 @@ class P:
         return "[%s]" % "; ".join("(%s, %s)" % (self.txt(k), self.txt(v)) for k, v in (l or []))
 
     def cfg(self, c):
-        return ("(mkConfig [%s] %s %s %s %s %s %s %s %s %s %s %s %s %s %s %s %s %s %s %s %s %s %s %s %s)" % (
+        return ("(mkConfig [%s] %s %s %s %s %s %s %s %s %s %s %s %s %s %s %s %s %s %s %s %s %s %s %s %s %s)" % (
             "; ".join(MODS[m] for m in c["mods"]), b(c["expire"]), b(c["totp"]), b(c["sms"]), b(c["sms_first"]),
             b(c["recovery"]), b(c["email_auth"]), z(c["lock_after"]), z(c["lock_window"]), z(c["lock_duration"]),
             z(c["expire_after"]), z(c["recover_dur"]), self.txt(c["mount"]), b(c["api"]), b(c["username"]),
             b(c["err_writes"]), c["logout_method"], c["mail_method"], b(c["recover_login"]),
             self.blist(c["whitelist"] or []), FAIL[c["unauthed"]], self.blist(c["providers"] or []),
-            self.blist(c["preserve"] or []), b(c.get("onetime", True)), b(c.get("default_paths", False))))
+            self.blist(c["preserve"] or []), b(c.get("onetime", True)), b(c.get("default_paths", False)),
+            b(c.get("wrap_remember", False))))
 
     def route(self, r):
         rt, arg = r["route"], r.get("arg", "")
